@@ -6,7 +6,8 @@ from .c01 import merge_stats
 
 RULE = ('random engine-level DAGs in which every function node carries its own function, so the call log identifies '
         'nodes; histories of 1-5 calls with caches, switches, by-value and impure wrappers; non-trivial: the output '
-        'reaches >= 3 non-leaf nodes and some node has >= 2 parent occurrences; distinct by SHA-1 of (nodes, step)')
+        'reaches >= 3 non-leaf nodes and some node has >= 2 parent occurrences; distinct by SHA-1 of (nodes, step). Pipeline level (S-REL): reading '
+        'ids of GroupBy / Split / Join pipelines again executes nothing, also when another pipeline built from the same layer object was used in between')
 
 
 def _shard(args):
@@ -41,6 +42,14 @@ def run(tier, seed, res, lean):
         res.violations.append(Violation(
             'c03-correspondence', 'the call logs of vm.py and of CM.Model.VM differ (as multisets); theorems C03.* no longer tied to the code',
             {'suite': 'S-VM', 'theorems': list(lean['theorems']), **bad[0]}, found_input=False))
+    # pipeline level: the id mappings of GroupBy / Split / Join are key material kept once per pipeline object; reading ids again
+    # (also after another pipeline built from the same layer object was used) executes nothing (S-REL, memo part)
+    from .. import suite_rel
+    rel_outs = pmap(suite_rel.run_shard, [(seed * 5003 + i + 9, 36 if tier == 'quick' else 200, ['groupby', 'split', 'join']) for i in range(shards)])
+    memo_bad = [b for o in rel_outs for b in o[5]]
+    for b in memo_bad[:3]:
+        res.violations.append(Violation('c03-mapping-recomputed', b['problems'][0][:300], {'suite': 'S-REL', **b}))
+    res.coverage['mapping_cases'] = sum(o[0]['cases'] for o in rel_outs)
     res.coverage.update({
         'evaluations': stats['calls'], 'distinct_nontrivial': stats['nontrivial'], 'rule': RULE,
         'programs': stats['cases'], 'disagreements_checked': len(bad), 'samples': [outs[0][3]],
@@ -49,6 +58,8 @@ def run(tier, seed, res, lean):
 
 
 def replay(obj, kind):
+    if obj.get('suite') == 'S-REL':
+        return True, 'dataset pipelines are replayed by re-running the check with the same VERIF_SEED'
     from ..real_vm import RealVM
     case, steps = obj['case'], obj['steps']
     real = RealVM(case).run(steps)
